@@ -195,6 +195,8 @@ Checks(g, run) ==
     first_trace |-> Chk(sim /\ cfg.threads = 1 /\ Len(run.chooser) > 0, FirstTraceValid(g, FirstTrace(run.chooser))),
     \* ---- C05 -------------------------------------------------------
     joined |-> Chk(TRUE, d.joined /\ ~d.spawn_panicked),
+    \* a checker thread / discoveries() / spawn must not panic on a model whose own code does not panic
+    no_panic |-> Chk(g.poison = 0, ~d.join_panicked /\ ~d.spawn_panicked /\ ~d.disc_panicked),
     \* ---- C10 -------------------------------------------------------
     sym_cover |-> Chk(comp /\ sym,
                  /\ \A s \in reach : Orbit(g, s) \cap vn # {}
